@@ -125,6 +125,11 @@ pub fn collision_cases(out: &mut Vec<Case>) {
     p("names/digits", "T1 ::= SEQUENCE { a1 BOOLEAN, a2b BOOLEAN, a-2 BOOLEAN }\nT ::= SEQUENCE { x T1 }");
     p("names/long-hyphenated", "T ::= SEQUENCE { this-is-a-very-long-hyphenated-component-name BOOLEAN, thisIsCamelCase BOOLEAN, mixed-camelCase-name BOOLEAN }");
     p("names/upper-run", "T ::= SEQUENCE { httpURL BOOLEAN, xMLParser BOOLEAN, iD BOOLEAN }\nHTTPRequest ::= BOOLEAN\nXMLHttpRequest ::= NULL");
+    // bounds whose digits are grouped in the generated accessors: every digit count 1..19, both signs
+    p("numbers/digit-grouping-negative", "T ::= SEQUENCE { a INTEGER (-9..9), b INTEGER (-99..99), c INTEGER (-999..999), d INTEGER (-9999..9999), e INTEGER (-99999..99999), f INTEGER (-999999..999999), g INTEGER (-9999999..9999999), h INTEGER (-99999999..99999999), i INTEGER (-999999999..999999999), j INTEGER (-9999999999..9999999999), k INTEGER (-999999999999..999999999999), l INTEGER (-999999999999999..999999999999999), m INTEGER (-999999999999999999..999999999999999999) }");
+    p("numbers/digit-grouping-top-level", "Latitude ::= INTEGER (-900000000..900000001)\nLongitude ::= INTEGER (-1800000000..1800000001)\nL ::= SEQUENCE OF INTEGER (-100000..100000)\nC ::= CHOICE { x INTEGER (-123456..-100000), y NULL }");
+    // an identifier that is an item of the component's ENUMERATED type and a value reference of the module as well
+    p("default-item-vs-value-reference", "unavailable INTEGER ::= 127\nConfidence ::= ENUMERATED { low, high, unavailable }\nT ::= SEQUENCE { c Confidence DEFAULT unavailable, n INTEGER (0..255) DEFAULT unavailable }");
     // one-letter segments: the name mapping is not idempotent there (a-b -> AB -> Ab)
     p("names/default-item-with-one-letter-segments", "Plan ::= ENUMERATED { a-b, x-y-position, zz }\nT ::= SEQUENCE { p Plan DEFAULT a-b, q Plan DEFAULT x-y-position, z BOOLEAN }");
     p("names/default-item-of-type-with-one-letter-segments", "X-Y ::= ENUMERATED { up, down }\nA-B-Type ::= ENUMERATED { e-w, n-s }\nT ::= SEQUENCE { r X-Y DEFAULT down, s A-B-Type DEFAULT n-s }");
